@@ -108,7 +108,7 @@ Definition equate (a b : N) (s : state) : state :=
   let ra := rep s a in
   let rb := rep s b in
   if N.eqb ra rb then s
-  else {| rep := fun x => if N.eqb (rep s x) rb then ra else rep s x;
+  else {| rep := fun x => let r := rep s x in if N.eqb r rb then ra else r;
           old := old s; new := new s; pending := pending s; next_id := next_id s; log := log s |}.
 
 (* t = args ++ [v] ? *)
